@@ -77,6 +77,11 @@ def same_state(interp, a, b, ignore=(), path="$"):
                 res.append(interp.symtruth(rec(k1, k2)))
                 res.append(interp.symtruth(rec(v1, v2)))
             return ops.b_and(*res)
+        if isinstance(x, PyDeque) and isinstance(y, PyDeque) and (x.rest is not None or y.rest is not None):
+            if x.rest is None or y.rest is None or len(x._items) != len(y._items):
+                raise Unsupported("comparison of an open deque with a deque of different shape")
+            return ops.b_and(ops.mkbool(x.rest[0] == y.rest[0]), ops.mkbool(x.rest[1] == y.rest[1]),
+                             *[interp.symtruth(rec(p, q)) for p, q in zip(x._items, y._items)])
         if isinstance(x, PyDeque) and isinstance(y, PyDeque):
             if len(x.items) != len(y.items):
                 return False
@@ -227,6 +232,98 @@ def primitives(interp):
         return a is b
     ns["is_same"] = is_same
 
+    # ---- loop contracts and ghost functions (pyvc/loops.py)
+    @_b("invariant")
+    def invariant(interp, label, cond):
+        from . import loops
+        return loops.prim_invariant(interp, label, cond)
+    ns["invariant"] = invariant
+
+    @_b("decreases")
+    def decreases(interp, expr):
+        from . import loops
+        return loops.prim_decreases(interp, expr)
+    ns["decreases"] = decreases
+
+    @_b("loop_spec")
+    def loop_spec(interp, qualname, ordinal, havoc=None, terminates=True):
+        def deco(interp2, f):
+            interp.registry.append(("loop_spec", (qualname, ordinal), {"havoc": havoc, "ordinal": ordinal, "terminates": terminates}, f))
+            return f
+        return _b("loop_spec()")(deco)
+    ns["loop_spec"] = loop_spec
+
+    @_b("ghost_function")
+    def ghost_function(interp, args, result, measure):
+        from . import loops
+
+        def deco(interp2, f):
+            kinds = list(args.items) if isinstance(args, PyList) else list(args)
+            g = loops.GhostFn(f, kinds, result, measure)
+            b = Builtin("ghost " + f.name, lambda interp3, a, k: loops.ghost_apply(interp3, g, a, k))
+            b.ghost = g
+            return b
+        return _b("ghost_function()")(deco)
+    ns["ghost_function"] = ghost_function
+
+    @_b("unfold")
+    def unfold(interp, gf, *args):
+        from . import loops
+        g = getattr(gf, "ghost", None)
+        if g is None:
+            raise Unsupported("unfold() of something that is not a ghost function")
+        return loops.unfold(interp, g, list(args))
+    ns["unfold"] = unfold
+
+    @_b("concat_chunks")
+    def concat_chunks(interp, q):
+        """concatenation of all chunks of a deque / list of octet strings (as bytes)"""
+        rope = []
+        if isinstance(q, PyDeque) and q.rest is not None:
+            rope.append(q.rest.blk)
+            items = q._items
+        else:
+            items = q.items
+        for x in items:
+            rope.extend(x.rope)
+        return BytesV(rope, "bytes")
+    ns["concat_chunks"] = concat_chunks
+
+    @_b("bv_lemma")
+    def bv_lemma(interp, name):
+        """a lemma of the CRC library (pyvc/crc_lemmas.py), proved now with z3 bit-vectors"""
+        from . import crc_lemmas
+        status, secs, model = crc_lemmas.prove(name)
+        interp.ctx.solver_secs += secs
+        interp.ctx.solver_calls += 1
+        if status == "unsat":
+            return True
+        if status == "sat":
+            interp.ctx.notes.append(f"bit-vector lemma {name} refuted: {model}")
+            return False
+        raise Unsupported(f"bit-vector lemma {name}: solver answered {status}")
+    ns["bv_lemma"] = bv_lemma
+
+    @_b("refine_as")
+    def refine_as(interp, x, y):
+        """x (an octet string represented by one unrefined symbolic block) is provably equal to y: from now
+        on represent x by y's rope, so that later slices of x and of y align syntactically.  No assumption
+        is added: the equality must be valid under the path condition (else the harness is undecided)."""
+        lm = getattr(interp, "loop_mode", None)
+        if lm is not None and lm.mode != "exit":
+            return None   # inside a loop contract: only when the loop is left through its guard
+        rope = ops.norm(x.rope)
+        if len(rope) != 1 or not isinstance(rope[0], Blk):
+            return None
+        if not interp.ctx.valid(ops.rope_term(rope) == ops.rope_term(y.rope)):
+            raise Unsupported("refine_as: the two octet strings are not provably equal here")
+        target = ops.norm(y.rope)
+        if any(e is rope[0] for e in target):
+            return None
+        rope[0].parts = list(target)
+        return None
+    ns["refine_as"] = refine_as
+
     @_b("open_dict")
     def open_dict(interp, name, key_td, mk_key, key_of, value_tds, mk_value):
         """a dict in an arbitrary state (any number of entries): see pyvc/opendict.py"""
@@ -241,6 +338,8 @@ def primitives(interp):
     ns["Str"] = TypeDesc("str", None)
     ns["Real"] = TypeDesc("real")
     ns["IntList"] = TypeDesc("list", TypeDesc("int", None, None), None)  # list of ints of ANY length (open list)
+    ns["BytesList"] = TypeDesc("byteslist")   # list of octet strings of ANY length (open list)
+    ns["Chunks"] = TypeDesc("chunks")         # deque of ANY number of bytearray chunks (open deque)
 
     @_b("IntRange")
     def int_range(interp, lo=None, hi=None):
